@@ -979,6 +979,9 @@ theorem ext_handle {s : Sys} (self : Cid) (e : Env) (hv : Valid s) (hc : CurOK s
   split
   · split
     · exact Ext.refl hv
+    · have h1 := ext_upd_same self (fun x => if x.state = .killing then { x with restarting := none } else x) hv
+        (fun _ => by split <;> rfl)
+      exact h1.trans (ext_deadLetter e h1.valid (hc.ext h1).env.ids)
     · exact ext_deadLetter e hv hc.env.ids
   · split
     · exact ext_execRecover _ _ _ _ hv hc (msgIdOK_plain _ _ rfl)
@@ -987,7 +990,7 @@ theorem ext_handle {s : Sys} (self : Cid) (e : Env) (hv : Valid s) (hc : CurOK s
       · split
         · have h1 := ext_upd_same self (fun x => { x with state := .killing }) hv (fun _ => rfl)
           exact h1.trans (ext_doKill _ _ _ _ h1.valid (hc.ext h1))
-        · exact Ext.refl hv
+        · exact ext_upd_same self _ hv (fun _ => rfl)
     · exact ext_onKilled _ _ _ _ hv hc
     · rename_i chain sc hm
       have : chainOK s.n chain := by
@@ -997,8 +1000,10 @@ theorem ext_handle {s : Sys} (self : Cid) (e : Env) (hv : Valid s) (hc : CurOK s
     · exact ext_upd_same self _ hv (fun _ => rfl)
     · exact ext_upd_same self _ hv (fun _ => rfl)
     · rename_i poison hm
-      have h1 := ext_upd_same self (fun x => { x with state := .killing, restarting := some poison }) hv (fun _ => rfl)
-      exact h1.trans (ext_doKill _ _ _ _ h1.valid (hc.ext h1))
+      split
+      · have h1 := ext_upd_same self (fun x => { x with state := .killing, restarting := some poison }) hv (fun _ => rfl)
+        exact h1.trans (ext_doKill _ _ _ _ h1.valid (hc.ext h1))
+      · exact Ext.refl hv
     · split
       · rename_i w hw
         have hupd : Ext s (upd s self (fun x => { x with watchers := x.watchers ++ [w] })) := by
